@@ -151,10 +151,13 @@ def rule_X5(ctx, F):
     BUF = W("buf")
     FB = P.bin("Div", ("call", name_ends("::len"), (BUF,)), P.named("BLOCK_LEN"))
     for bi, e, where in xs:
-        want = P.call("platform::Platform::xof_many", P.self_("inner", "platform"), P.self_("inner", "input_chaining_value"), P.self_("inner", "block"),
-                      P.self_("inner", "block_len"), P.self_("inner", "counter"), P.bin("BitOr", P.self_("inner", "flags"), P.named("ROOT")),
-                      ("call", name_has("index_mut"), (BUF, ("adt", name_ends("RangeTo"), W(), W(), (P.bin("Mul", FB, P.named("BLOCK_LEN")),)))))
-        m = unify(want, e)
+        m = None
+        # the output operand is the prefix of `buf` holding the whole blocks: &mut buf[..n] or buf.split_at_mut(n).0, n = full_blocks * BLOCK_LEN
+        for outpat in (("call", name_has("index_mut"), (BUF, ("adt", name_ends("RangeTo"), W(), W(), (P.bin("Mul", FB, P.named("BLOCK_LEN")),)))),
+                       ("path", ("call", name_ends("split_at_mut"), (BUF, P.bin("Mul", FB, P.named("BLOCK_LEN")))), ("0",))):
+            want = P.call("platform::Platform::xof_many", P.self_("inner", "platform"), P.self_("inner", "input_chaining_value"), P.self_("inner", "block"),
+                          P.self_("inner", "block_len"), P.self_("inner", "counter"), P.bin("BitOr", P.self_("inner", "flags"), P.named("ROOT")), outpat)
+            m = m or unify(want, e)
         ctx.ob(m is not None, "fill-xof_many-operands", where,
                "xof_many(%s) ; required (cv, block, block_len, inner.counter, flags|ROOT, &mut buf[..full_blocks*BLOCK_LEN])" % ", ".join(show(a)[:60] for a in e[2][1:]))
         adv = [(b2, v, w) for b2, name, v, w in self_writes(fn) if name == "inner.counter"]
